@@ -797,8 +797,8 @@ func (pc *PartitionContext) removeNodeAllocations(node *objects.Node) ([]*object
 		// Retrieve the queue early before a possible race.
 		queue := app.GetQueue()
 		// check for an inflight replacement.
-		if alloc.HasRelease() {
-			release := alloc.GetRelease()
+		// the link can be cleared by the scheduler at any time: read it once
+		if release := alloc.GetRelease(); release != nil {
 			// allocation to update the ask on: this needs to happen on the real alloc never the placeholder
 			askAlloc := alloc
 			// placeholder gets handled differently from normal
